@@ -60,11 +60,11 @@ Lemma dsrc_isrc n i : (i < n)%nat -> dsrc n (isrc n i) = i.
 Proof.
   intros H. unfold isrc. destruct (Nat.even i) eqn:Ev.
   - apply Nat.even_spec in Ev. destruct Ev as [k ->]. unfold dsrc. cbv zeta.
-    replace (2 * k / 2)%nat with k by (rewrite Nat.mul_comm, Nat.div_mul; lia).
+    replace (2 * k / 2)%nat with k by lia.
     destruct (k <? (n + 1) / 2)%nat eqn:E; lia.
   - assert (Od : Nat.odd i = true) by (rewrite <- Nat.negb_even, Ev; reflexivity).
     apply Nat.odd_spec in Od. destruct Od as [k ->]. unfold dsrc. cbv zeta.
-    replace ((2 * k + 1) / 2)%nat with k by (symmetry; apply Nat.div_unique with 1%nat; lia).
+    replace ((2 * k + 1) / 2)%nat with k by lia.
     destruct (n - 1 - k <? (n + 1) / 2)%nat eqn:E; lia.
 Qed.
 
@@ -99,6 +99,15 @@ Proof.
   rewrite nth_deinterleave by (now apply isrc_lt). now rewrite dsrc_isrc.
 Qed.
 
+Lemma NoDup_map_inj_in {A B} (f : A -> B) l :
+  (forall x y, In x l -> In y l -> f x = f y -> x = y) -> NoDup l -> NoDup (map f l).
+Proof.
+  intros Hinj Hnd. induction Hnd as [|a l Hnin Hnd IH]; cbn [map]; constructor.
+  - intros Hin. apply in_map_iff in Hin as [y [E Hy]]. apply Hnin.
+    rewrite (Hinj a y); [exact Hy | left; reflexivity | right; exact Hy | symmetry; exact E].
+  - apply IH. intros x y Hx Hy. apply Hinj; right; assumption.
+Qed.
+
 Lemma interleave_perm l : Permutation (interleave l) l.
 Proof.
   (* a list with an inverse permutation of positions: use NoDup-free argument via the inverse map *)
@@ -107,7 +116,7 @@ Proof.
   unfold interleave.
   assert (P : Permutation (map (isrc (length l)) (seq 0 (length l))) (seq 0 (length l))).
   { apply NoDup_Permutation_bis.
-    - apply (FinFun.Injective_map_NoDup_in).
+    - apply NoDup_map_inj_in.
       + intros x y Hx Hy E. apply in_seq in Hx. apply in_seq in Hy.
         rewrite <- (dsrc_isrc (length l) x) by lia. rewrite <- (dsrc_isrc (length l) y) by lia. now rewrite E.
       + apply seq_NoDup.
@@ -184,3 +193,65 @@ Proof.
   rewrite app_nth2 in F by (rewrite rev_length; lia). rewrite rev_length in F.
   replace (length run + i - length run)%nat with i in F by lia. rewrite F in Hm. contradiction.
 Qed.
+
+(* ---------------- permutations, byte ranges, pipelines ---------------- *)
+Lemma deinterleave_perm l : Permutation (deinterleave l) l.
+Proof.
+  pose proof (interleave_perm (deinterleave l)) as P. rewrite interleave_deinterleave in P.
+  apply Permutation_sym. exact P.
+Qed.
+
+Lemma bytes_ok_perm l l' : Permutation l l' -> bytes_ok l -> bytes_ok l'.
+Proof. unfold bytes_ok. intros P H. eapply Permutation_Forall; eassumption. Qed.
+
+Lemma swap_invol m l : 0 < m -> swap_aux m [] (swap_aux m [] l) = l.
+Proof. intros _. rewrite swap_aux_invol by constructor. reflexivity. Qed.
+
+Lemma swap_multiples_total l m : exists r, swap_multiples l m = (if m <? 0 then Err EValue else Ok r).
+Proof. unfold swap_multiples. destruct (m <? 0); [exists l; reflexivity|]. destruct (m =? 0); eexists; reflexivity. Qed.
+
+Lemma apply_op_ok o l : bytes_ok l -> bytes_ok (apply_op o l).
+Proof.
+  intros H. destruct o as [| | |m]; cbn [apply_op].
+  - eapply bytes_ok_perm; [apply Permutation_sym, interleave_perm | exact H].
+  - eapply bytes_ok_perm; [apply Permutation_sym, deinterleave_perm | exact H].
+  - now apply flip_msb_ok.
+  - unfold swap_multiples. destruct (m <? 0); [exact H|]. destruct (m =? 0); [exact H|].
+    eapply bytes_ok_perm; [apply Permutation_sym, (swap_aux_perm m l []) | exact H].
+Qed.
+
+Lemma apply_op_inverse o l : bytes_ok l -> apply_op (inverse o) (apply_op o l) = l.
+Proof.
+  intros H. destruct o as [| | |m]; cbn [apply_op inverse].
+  - apply deinterleave_interleave.
+  - apply interleave_deinterleave.
+  - now apply flip_msb_invol.
+  - unfold swap_multiples. destruct (m <? 0) eqn:N; [reflexivity|].
+    destruct (m =? 0) eqn:Z0; [reflexivity|]. cbv beta iota. apply swap_invol. lia.
+Qed.
+
+Lemma apply_op_length o l : length (apply_op o l) = length l.
+Proof.
+  destruct o as [| | |m]; cbn [apply_op].
+  - apply interleave_length. - apply deinterleave_length. - apply map_length.
+  - unfold swap_multiples. destruct (m <? 0); [reflexivity|]. destruct (m =? 0); [reflexivity|].
+    now rewrite swap_aux_length.
+Qed.
+
+Lemma run_ops_ok p : forall l, bytes_ok l -> bytes_ok (run_ops p l).
+Proof. unfold run_ops. induction p as [|o p IH]; intros l H; cbn [fold_left]; [exact H|]. apply IH. now apply apply_op_ok. Qed.
+
+Lemma run_ops_app p q l : run_ops (p ++ q) l = run_ops q (run_ops p l).
+Proof. unfold run_ops. apply fold_left_app. Qed.
+
+Lemma pipeline_inverse p : forall l, bytes_ok l -> run_ops (map inverse (rev p)) (run_ops p l) = l.
+Proof.
+  induction p as [|o p IH]; intros l H; [reflexivity|].
+  cbn [rev]. rewrite map_app, run_ops_app. cbn [map].
+  change (run_ops (o :: p) l) with (run_ops p (apply_op o l)).
+  rewrite IH by (now apply apply_op_ok). unfold run_ops. cbn [fold_left]. now apply apply_op_inverse.
+Qed.
+
+(* isrc n is a bijection of [0,n) with inverse dsrc n *)
+Lemma isrc_inj n i j : (i < n)%nat -> (j < n)%nat -> isrc n i = isrc n j -> i = j.
+Proof. intros Hi Hj E. rewrite <- (dsrc_isrc n i Hi), <- (dsrc_isrc n j Hj). now rewrite E. Qed.
